@@ -1,5 +1,6 @@
 import MetadorModel.Py.DrvLib
 import MetadorModel.Model.Hashsums
+import MetadorModel.Model.ByteStreams
 /-!
 Driver for the `dir_hashsums` model (C19).
 
@@ -20,6 +21,9 @@ build | rbuild | legacy      run the loop (given order / reversed / pinned code)
                                                                   → ok <dict> | err <Class>
 chunks <n> <content>         chunk lengths of the read loop       → c <len>*
 hashsum <content> <digest>   `qualified_hashsum` with current alg → ok <hex str> | err <Class>
+shashsum <caps> <content> <digest>   `qualified_hashsum` of a stream that delivers at most
+                             caps[i mod len] bytes at its i-th read (`caps` = `,`-joined positive
+                             numbers)                              → ok <hex str> | err <Class>
 relsym <resolved> <base>     `relative_to`                        → some <path> | none
 ```
 -/
@@ -114,6 +118,16 @@ def step (s : St) : List String → St × String
            | .ok h => "ok " ++ hexS h
            | .error e => showErr e)
     | none => (s, "bad-op")
+  | ["shashsum", ks, c, d] =>
+    match (ks.splitOn ",").mapM String.toNat?, unhexB c with
+    | some caps, some c =>
+      if caps.isEmpty || caps.any (· == 0) then (s, "bad-op")
+      else
+        let s' := { s with tbl := ((s.alg, c), strOf d) :: s.tbl }
+        (s', match qualifiedHashsumS (mkHL s') (cyclic caps 1) c s.alg with
+             | .ok h => "ok " ++ hexS h
+             | .error e => showErr e)
+    | _, _ => (s, "bad-op")
   | ["relsym", r, b] =>
     match parsePath r, parsePath b with
     | some r, some b =>
